@@ -151,6 +151,11 @@ func classifyCheck(p policy, calls []harness.AuthCall) (cls checkClass, facts []
 	if denied {
 		return checkFailed, nil, false
 	}
+	if token == 0 {
+		// group membership was looked up but the token itself was never put to the authenticator: whatever the
+		// lookup answered (an outage included), the check the property asks for has not taken place
+		return checkFailed, nil, false
+	}
 	if unavailable {
 		return checkUnavailable, facts, haveFacts
 	}
